@@ -35,6 +35,7 @@ ASSUMES = ['integers in [-n, n); slices with step None/1 and bounds in {None} u 
            '(exactly slice(None)) returns a reader (C02); multi-file layouts only for flat binaries; no index '
            'lists on .cbin']
 TIMEOUT = {'quick': 20, 'thorough': 60}
+COQ_HEADER = 'From Coq Require Import Floats.\n'
 
 DT = {'uint8': 0, 'int16': 1, 'int32': 2, 'int64': 3, 'float32': 4, 'float64': 5}
 DTMAX = {'uint8': 255, 'int16': 32767, 'int32': 2 ** 31 - 1, 'int64': 2 ** 62, 'float32': 2 ** 24, 'float64': 2 ** 53}
@@ -122,6 +123,8 @@ def valid_case(case):
         return False
     if n * c - 1 > DTMAX[cfg['dtype']]:
         return False
+    if not 0 <= cfg['junk'] < c * ITEMSIZE[cfg['dtype']]:
+        return False
     if cfg['backend'] != 'flat' and len(sizes) != 1:
         return False
     if case['kind'] == 'attrs':
@@ -133,12 +136,21 @@ def valid_case(case):
     return True
 
 
+def _norm(case):
+    # trailing bytes must stay below one row, otherwise they ARE a row
+    i = case['inp']
+    cfg = i['cfg']
+    cfg['junk'] = max(0, min(cfg['junk'], i['c'] * ITEMSIZE[cfg['dtype']] - 1))
+    return case
+
+
 def _get(sizes, c, item, cols, **cfg):
-    return {'kind': 'get', 'inp': {'sizes': list(sizes), 'c': c, 'item': item, 'cols': cols, 'cfg': _cfg(**cfg)}}
+    return _norm({'kind': 'get', 'inp': {'sizes': list(sizes), 'c': c, 'item': item, 'cols': cols,
+                                         'cfg': _cfg(**cfg)}})
 
 
 def _attrs(sizes, c, **cfg):
-    return {'kind': 'attrs', 'inp': {'sizes': list(sizes), 'c': c, 'cfg': _cfg(**cfg)}}
+    return _norm({'kind': 'attrs', 'inp': {'sizes': list(sizes), 'c': c, 'cfg': _cfg(**cfg)}})
 
 
 CORPUS = [
@@ -203,7 +215,7 @@ def _config_sample(base, rng, count):
                        offset=rng.choice([0, 1, 7, 64]), junk=rng.choice([0, 0, 1, 3]),
                        ext=rng.choice(['.bin', '.dat', '.raw']), rate=rng.choice([1.0, 2.5, 30000.0, 7.0]))
             cfg['as'] = i['cfg']['as']
-            nc = {'kind': 'get', 'inp': dict(i, cfg=cfg)}
+            nc = _norm({'kind': 'get', 'inp': dict(i, cfg=cfg)})
         else:
             n = sum(i['sizes'])
             # re-use item/cols on the single-part layout of the same length
@@ -280,7 +292,7 @@ def _random(rng, count, nmax):
         if valid_case(case):
             out.append(case)
             if rng.random() < 0.1:
-                out.append({'kind': 'attrs', 'inp': {'sizes': sizes, 'c': c, 'cfg': case['inp']['cfg']}})
+                out.append({'kind': 'attrs', 'inp': {'sizes': sizes, 'c': c, 'cfg': dict(case['inp']['cfg'])}})
     return out
 
 
